@@ -18,7 +18,7 @@ pub const FLOORS: &[&str] = &[
     "eval:jump_label", "eval:trap_output", "eval:stack", "pc_not_origin", "label_before_pc",
     "label_after_pc", "refused:br", "refused:rti", "refused:halt", "refused:unknown_trap",
     "malformed:missing", "malformed:surplus", "malformed:wrong_kind", "malformed:directive",
-    "malformed:two_instructions", "malformed:undefined_label", "label_out_of_reach", "eval:outside_user_space", "eval:label_below_origin",
+    "malformed:two_instructions", "malformed:undefined_label", "label_out_of_reach", "eval:outside_user_space", "eval:label_below_origin", "eval_after_reset",
 ];
 
 enum Expect {
@@ -261,6 +261,11 @@ fn one_case(seed: u64, i: u64) -> CaseOut {
         pcs.insert(0, orig);
     }
     for pc in pcs {
+        if rng.chance(1, 5) {
+            // `reset` restores the machine; labels keep their meaning afterwards
+            lines.push(rng.s(&["reset", "z"]).to_string());
+            classes.push("eval_after_reset".into());
+        }
         lines.push(format!("goto x{:04x}", pc));
         if pc != orig {
             classes.push("pc_not_origin".into());
